@@ -241,6 +241,54 @@ fn body(ctx: &mut Ctx) {
     }
     // ---- division (hardware divide, add-back through the addition loop)
     if ctx.space("DIV") {
+        // a zero scalar divisor must be turned away before the hardware divide: a panic, never a fault (SIGFPE)
+        if ctx.mine(1 << 41) {
+            for d in [vec![], vec![7u64], vec![u64::MAX, 1], vec![0, 0, 1]] {
+                ctx.case();
+                ctx.nontrivial(1);
+                let u = bu(&d);
+                let i = -BigInt::from(u.clone());
+                let args = || vec![format!("x={}", hexs(&d))];
+                macro_rules! z {
+                    ($name:expr, $e:expr) => {{
+                        let r = call(ctx, || $e);
+                        expect_panic(ctx, $name, &args, r);
+                    }};
+                }
+                z!("BigUint &x/0u8", &u / 0u8);
+                z!("BigUint &x/0u16", &u / 0u16);
+                z!("BigUint &x/0u32", &u / 0u32);
+                z!("BigUint x/0u64", u.clone() / 0u64);
+                z!("BigUint x/0u128", u.clone() / 0u128);
+                z!("BigUint x/0usize", u.clone() / 0usize);
+                z!("BigUint &x%0u8", &u % 0u8);
+                z!("BigUint &x%0u32", &u % 0u32);
+                z!("BigUint x%0u64", u.clone() % 0u64);
+                z!("BigUint x/=0u32", {
+                    let mut y = u.clone();
+                    y /= 0u32;
+                    y
+                });
+                z!("BigUint x%=0u32", {
+                    let mut y = u.clone();
+                    y %= 0u32;
+                    y
+                });
+                z!("BigUint 5u32/x(0)", 5u32 / BigUint::ZERO);
+                z!("BigInt &x/0i8", &i / 0i8);
+                z!("BigInt &x/0i16", &i / 0i16);
+                z!("BigInt &x/0i32", &i / 0i32);
+                z!("BigInt x/0i64", i.clone() / 0i64);
+                z!("BigInt &x%0i32", &i % 0i32);
+                z!("BigInt x%0u32", i.clone() % 0u32);
+                z!("BigInt x/=0i32", {
+                    let mut y = i.clone();
+                    y /= 0i32;
+                    y
+                });
+            }
+            ctx.sample(|| "zero scalar divisors of every width on BigUint and BigInt: must panic before the hardware divide".to_string());
+        }
         let (la_max, lb_max) = if lite { (5, 3) } else { tier.pick((10usize, 6usize), (12, 8)) };
         let mut o = 0u64;
         for la in 1..=la_max {
